@@ -126,6 +126,9 @@ type RespWriter struct {
 	// is still in the bufio.Writer that Hijack hands over (the Hijacker contract allows
 	// that; net/http happens to flush inside Hijack) and leaves with the new owner's first flush.
 	HeadInWriter bool
+	// ReaderSize > 0: the bufio.Reader that Hijack hands over has this size instead of bufio's default of 4096
+	// (the Hijacker contract leaves it open; a control frame's payload may then be larger than the buffer).
+	ReaderSize int
 }
 
 // WriteHeaderNow commits a status noted by WriteHeader (gin's ResponseWriter has this method).
@@ -177,6 +180,9 @@ func (w *RespWriter) Hijack() (net.Conn, *bufio.ReadWriter, error) {
 		time.Sleep(time.Millisecond)
 	}
 	br := bufio.NewReader(w.lib)
+	if w.ReaderSize > 0 {
+		br = bufio.NewReaderSize(w.lib, w.ReaderSize)
+	}
 	bw := bufio.NewWriter(w.lib)
 	if w.lib.InPending() > 0 {
 		br.Peek(1) // pipelined client bytes are already buffered, as in net/http
@@ -191,17 +197,18 @@ func (w *RespWriter) Hijack() (net.Conn, *bufio.ReadWriter, error) {
 
 // ServerCfg scripts the client side of an Accept.
 type ServerCfg struct {
-	Mode      websocket.CompressionMode
-	Threshold int
-	Offer     string // Sec-WebSocket-Extensions value of the request ("" = absent)
-	Offers    []string
-	Protos    []string // server-supported
-	ReqProtos string
-	Origin    string
-	Host      string
-	Patterns  []string
-	Insecure  bool
-	Pipelined []byte // client bytes sent "in the same packet" as the request
+	Mode       websocket.CompressionMode
+	Threshold  int
+	Offer      string // Sec-WebSocket-Extensions value of the request ("" = absent)
+	Offers     []string
+	Protos     []string // server-supported
+	ReqProtos  string
+	Origin     string
+	Host       string
+	Patterns   []string
+	Insecure   bool
+	Pipelined  []byte // client bytes sent "in the same packet" as the request
+	ReaderSize int    // see RespWriter.ReaderSize
 }
 
 // Server is an accepted library connection and the harness's end.
@@ -241,10 +248,22 @@ func Accept(cfg ServerCfg) (*Server, error) {
 	if cfg.Host != "" {
 		r.Host = cfg.Host
 	}
-	return AcceptReq(r, &websocket.AcceptOptions{
+	opts := &websocket.AcceptOptions{
 		Subprotocols: cfg.Protos, InsecureSkipVerify: cfg.Insecure, OriginPatterns: cfg.Patterns,
 		CompressionMode: cfg.Mode, CompressionThreshold: cfg.Threshold,
-	}, cfg.Pipelined)
+	}
+	if cfg.ReaderSize > 0 {
+		lib, peer := memconn.Pipe()
+		if len(cfg.Pipelined) > 0 {
+			peer.Write(cfg.Pipelined)
+		}
+		w := NewRespWriter(lib)
+		w.ReaderSize = cfg.ReaderSize
+		s, err := AcceptWith(w, r, opts)
+		s.Peer = peer
+		return s, err
+	}
+	return AcceptReq(r, opts, cfg.Pipelined)
 }
 
 // AcceptReq runs Accept on an arbitrary request.
